@@ -33,6 +33,7 @@ import (
 	"hash/fnv"
 	"math"
 	"os"
+	"os/exec"
 	"path/filepath"
 	"runtime"
 	"sort"
@@ -42,6 +43,7 @@ import (
 	"sync/atomic"
 	"time"
 
+	"github.com/krotik/common/datautil"
 	"github.com/krotik/ecal/cli/tool"
 	"github.com/krotik/ecal/interpreter"
 	"github.com/krotik/ecal/parser"
@@ -110,6 +112,18 @@ bad(1)
 x.gate()
 `
 
+const c16ProgNestArg = `func g(y) {
+    return y + 1
+}
+func f(x) {
+    return x + 2
+}
+a := 1
+r := f(g(a))
+s := f(g(f(1)))
+x.gate()
+`
+
 const c16ProgShort = `a := 1
 b := [1, 2]
 `
@@ -117,25 +131,26 @@ b := [1, 2]
 // ---- the gate: a Go function in which "running" threads are blocked
 
 type c16Case struct {
-	dbg     util.ECALDebugger
-	gs      parser.Scope
-	gsGiven bool
-	erps    []*interpreter.ECALRuntimeProvider
-	gate    chan struct{}
-	inGate  sync.Map // tid -> bool
-	done    map[uint64]chan struct{}
-	thrPan  atomic.Value
-	ready   bool
-	stuck   bool // Status does not answer any more
-	hung    bool // a command did not return
-	pending chan string // an inject that has not returned (yet)
+	dbg       util.ECALDebugger
+	gs        parser.Scope
+	gsGiven   bool
+	erps      []*interpreter.ECALRuntimeProvider
+	gate      chan struct{}
+	inGate    sync.Map // tid -> bool
+	done      map[uint64]chan struct{}
+	thrPan    atomic.Value
+	ready     bool
+	stuck     bool        // Status does not answer any more
+	hung      bool        // a command did not return
+	refsKnown string      // set by scenarios that install the references themselves
+	pending   chan string // an inject that has not returned (yet)
 	sharedErp *interpreter.ECALRuntimeProvider
-	viaCLI  bool // commands go through CLIDebugInterpreter.Handle
-	cli     *tool.CLIDebugInterpreter
-	mu      sync.Mutex
+	viaCLI    bool // commands go through CLIDebugInterpreter.Handle
+	cli       *tool.CLIDebugInterpreter
+	mu        sync.Mutex
 }
 
-var c16Cur atomic.Value // *c16Case
+var c16Cur atomic.Value  // *c16Case
 var c16Cases sync.Map    // global scope -> *c16Case, while the case is running
 var c16Recorded sync.Map // payload -> result of the recording run (see emit)
 
@@ -258,26 +273,18 @@ func (c *c16Case) threadTable() map[string]map[string]interface{} {
 // quiesce waits until every started thread is suspended, in the gate or finished.
 func (c *c16Case) quiesce() bool {
 	deadline := time.Now().Add(30 * time.Second)
-	stable := 0
 	for {
 		tt := c.threadTable()
 		if tt == nil {
 			return false
 		}
 		all := true
-		// VisitStepOutState marks a thread whose error is already recorded as not running
-		// WITHOUT waiting: such a thread only counts as suspended if it stays that way
-		transient := false
 		c.mu.Lock()
 		tids := make([]uint64, 0, len(c.done))
 		for t := range c.done {
 			tids = append(tids, t)
 		}
 		c.mu.Unlock()
-		// the evaluation of a pending inject runs as thread 999: it counts while it is under way
-		if e, ok := tt["999"]; ok && e["threadRunning"] != false && c.evaluating() {
-			all = false
-		}
 		for _, t := range tids {
 			if c.isDone(t) {
 				continue
@@ -287,26 +294,14 @@ func (c *c16Case) quiesce() bool {
 			}
 			if e, ok := tt[fmt.Sprint(t)]; ok {
 				if r, ok := e["threadRunning"]; ok && r == false {
-					if e["error"] != nil {
-						transient = true
-					}
 					continue
 				}
 			}
 			all = false
 		}
-		if all && !transient {
+		if all {
 			return true
 		}
-		if all {
-			stable++
-			if stable >= 25 {
-				return true
-			}
-			time.Sleep(100 * time.Microsecond)
-			continue
-		}
-		stable = 0
 		if time.Now().After(deadline) {
 			CountRun("quiesce-timeout")
 			fmt.Fprintf(os.Stderr, "c16: no quiescence: threads %v\n", tt)
@@ -330,14 +325,23 @@ func c16Names(m map[string]interface{}) string {
 
 // observe: the abstract state (see the head of the file)
 func (c *c16Case) observe() string {
-	refs := "0"
-	func() {
-		defer func() { recover() }() // before a44f74f LockState panics exactly when the references are unset
-		m := c.dbg.LockState().(map[string]interface{})
-		if t, _ := m["threads"].(map[string]interface{}); t != nil {
-			refs = "1"
-		}
-	}()
+	// the lazily set references: owners+log (SetLockingState) and thread pool (SetThreadPool)
+	refs := c.refsKnown
+	if refs == "" {
+		refs = "00"
+		func() {
+			defer func() { recover() }() // a LockState without its nil checks panics exactly when a reference is unset
+			m := c.dbg.LockState().(map[string]interface{})
+			l, p := "0", "0"
+			if o, _ := m["owners"].(map[string]uint64); o != nil {
+				l = "1"
+			}
+			if t, _ := m["threads"].(map[string]interface{}); t != nil {
+				p = "1"
+			}
+			refs = l + p
+		}()
+	}
 	tt := c.threadTable()
 	var ths []string
 	for k, e := range tt {
@@ -438,6 +442,18 @@ func c16NewCase(scn string, gsGiven bool) *c16Case {
 		c.start(1, "nest", c16ProgNest)
 		c.quiesce()
 		c.dbg.Continue(1, util.StepOver)
+	case "two999": // thread 1 two calls deep, a REAL thread with id 999 suspended at top level
+		c.dbg.SetBreakPoint("prog", 3)
+		c.start(999, "prog", c16ProgTop)
+		c.quiesce()
+		c.dbg.SetBreakPoint("nest", 6)
+		c.start(1, "nest", c16ProgNest)
+	case "halfrefs": // between SetLockingState and SetThreadPool of the very first evaluation
+		c.dbg.SetLockingState(map[string]uint64{}, &sync.Mutex{}, datautil.NewRingBuffer(8))
+		c.refsKnown = "10"
+	case "nestarg": // a call whose argument is a call: VisitStepInState's "stop before entering" branch
+		c.dbg.SetBreakPoint("narg", 7)
+		c.start(1, "narg", c16ProgNestArg)
 	case "finished":
 		c.start(1, "short", c16ProgShort)
 	case "finerr":
@@ -457,7 +473,7 @@ func c16NewCase(scn string, gsGiven bool) *c16Case {
 }
 
 var c16Scenarios = []string{"none", "bos", "top", "running", "nest1", "nest2", "nest3", "errsusp", "finished", "finerr", "two",
-	"errmap", "errnest", "errinf", "stepbp1", "stepbp2", "stepbp3"}
+	"errmap", "errnest", "errinf", "stepbp1", "stepbp2", "stepbp3", "two999", "halfrefs", "nestarg"}
 
 func (c *c16Case) end() {
 	c16Cases.Delete(c.gs)
@@ -507,8 +523,7 @@ func (c *c16Case) end() {
 //	1 / 0 : evaluates without / with an error (measured by evaluating it the way InjectValue does)
 //	V     : calls a function declared by the debugged program, which reports to the debugger (not
 //	        pre-evaluated: as thread 999 it would itself stop at break points)
-//	B     : as V, but the function runs into an active break point (or break-on-start is set):
-//	        the evaluation stops there as thread 999 and the command does not return
+//	        (an evaluation is not debugged: break points inside the function do not stop it)
 //	D     : does not return while the case lasts (a loop over x.spin())
 func (c *c16Case) evalBit(line string) string {
 	f := strings.Fields(line)
@@ -519,22 +534,12 @@ func (c *c16Case) evalBit(line string) string {
 	if strings.Contains(expr, "x.spin(") {
 		return "D"
 	}
-	for fn, lines := range map[string][]string{"f3(": {"nest:2", "nest:3"}, "f1(": {"nest:10", "nest:11", "nest:6", "nest:7", "nest:2", "nest:3"}} {
+	for _, fn := range []string{"f3(", "f1(", "f2("} {
 		if !strings.Contains(expr, fn) {
 			continue
 		}
 		if _, defined, _ := c.gs.GetValue(strings.TrimSuffix(fn, "(")); !defined {
 			break // an unknown function: an ordinary error, measured below
-		}
-		st, _ := c.dbg.Status().(map[string]interface{})
-		if st["breakonstart"] == true {
-			return "B"
-		}
-		bps, _ := st["breakpoints"].(map[string]bool)
-		for _, l := range lines {
-			if bps[l] {
-				return "B"
-			}
 		}
 		return "V"
 	}
@@ -696,6 +701,8 @@ func c16Exec(scn string, gsGiven bool, lines []string, rec []c16Step, obs0 strin
 				if _, ok := c.done[2]; !ok {
 					c.start(2, "prog", c16ProgTop)
 				}
+			case "!stopthreads": // what the CLI tool does on @reload
+				c.dbg.StopThreads(0)
 			case "!dbgtable":
 				if !c.dbgTable() {
 					return o0, out, strings.Join(classes, ",") + " BADTABLE"
@@ -713,8 +720,8 @@ func c16Exec(scn string, gsGiven bool, lines []string, rec []c16Step, obs0 strin
 		} else {
 			st.bit = c.evalBit(ln)
 			var cl string
-			if st.bit == "D" || st.bit == "B" {
-				cl = c.commandAsync(ln, st.bit == "B")
+			if st.bit == "D" {
+				cl = c.commandAsync(ln, false)
 			} else {
 				cl = c.command(ln)
 			}
@@ -742,6 +749,20 @@ func c16Exec(scn string, gsGiven bool, lines []string, rec []c16Step, obs0 strin
 		out = append(out, st)
 	}
 	still := c.command("status")
+	// an inject that had not returned: with the case over (x.spin() is false) its reply is due —
+	// a panic, or a goroutine that never comes back (runtime.Goexit inside HandleInput), is a class
+	if c.pending != nil {
+		c16Cases.Delete(c.gs)
+		select {
+		case r := <-c.pending:
+			if r != "ok" && r != "error" {
+				still += " LATE:" + r
+			}
+		case <-time.After(c16CmdTimeout()):
+			still += " LATE:NORETURN"
+		}
+		c.pending = nil
+	}
 	if p := c.thrPan.Load(); p != nil {
 		still += " THREAD-PANIC"
 	}
@@ -763,6 +784,57 @@ func c16Payload(scn string, gsGiven bool, obs0 string, steps []c16Step) string {
 	return strings.Join(f, " ")
 }
 
+// c16Cyclic: `describe` of a thread that sees a list containing itself (known finding
+// describe-cyclic-value: scope.ToJSONObject falls back to fmt.Sprintf("%#v") which never ends — a
+// fatal stack overflow that no recover() catches). The dangerous part runs in a child process.
+func c16Cyclic(child bool) string {
+	if !child {
+		cmd := exec.Command(os.Args[0], "C16", "-one", "cyclic! 1 0")
+		cmd.Env = append(os.Environ(), "GOMEMLIMIT=1GiB")
+		done := make(chan struct{})
+		var out []byte
+		var err error
+		go func() { out, err = cmd.CombinedOutput(); close(done) }()
+		select {
+		case <-done:
+		case <-time.After(120 * time.Second):
+			cmd.Process.Kill()
+			return "ok HANG"
+		}
+		first := ""
+		for _, l := range strings.Split(string(out), "\n") {
+			if strings.HasPrefix(l, "status=") {
+				first = strings.TrimPrefix(l, "status=")
+			}
+			if strings.HasPrefix(l, "describe=") {
+				return first + " " + strings.TrimPrefix(l, "describe=")
+			}
+		}
+		if err != nil {
+			return first + " CRASH"
+		}
+		return first + " NOOUTPUT"
+	}
+	c := &c16Case{gate: make(chan struct{}), done: map[uint64]chan struct{}{}, gsGiven: true}
+	c.gs = scope.NewScope(scope.GlobalScope)
+	c.dbg = interpreter.NewECALDebugger(c.gs)
+	c16Cur.Store(c)
+	c16Cases.Store(c.gs, c)
+	c.dbg.SetBreakPoint("cyc", 3)
+	c.start(1, "cyc", "a := [1]\na[0] := a\nb := 2\nx.gate()\n")
+	for i := 0; i < 100000; i++ {
+		if tt := c.threadTable(); tt != nil && tt["1"] != nil && tt["1"]["threadRunning"] == false {
+			break
+		}
+		time.Sleep(50 * time.Microsecond)
+	}
+	fmt.Println("status=" + c.command("status"))
+	os.Stdout.Sync()
+	cl := c.command("describe 1")
+	fmt.Println("describe=" + cl)
+	return "child-done"
+}
+
 // c16Conc: a thread is suspended in a long straight-line program; goroutine A issues
 // `cont 1 stepin` again and again (waiting for the thread to stop on the next line in
 // between), goroutine B sets and removes a breakpoint without pause (write lock), goroutine
@@ -773,6 +845,8 @@ func c16Conc() string {
 	// which `describe 1` hands out (live slices of the debugger) change all the time
 	var sb strings.Builder
 	sb.WriteString("func h(y) {\n    z := y + 1\n    return z\n}\nfunc f(x) {\n    w := h(x)\n    return w\n}\n")
+	// only called by injected expressions: long enough for two evaluations to overlap
+	sb.WriteString("func slow(n) {\n    k := 0\n    for i in range(1, n) {\n        k := k + h(i)\n    }\n    return k\n}\nfunc slow2(n) {\n    return slow(n) + 1\n}\n")
 	for i := 0; i < 400; i++ {
 		sb.WriteString("a := f(1)\nb := 2\n")
 	}
@@ -832,38 +906,92 @@ func c16Conc() string {
 	stop := make(chan struct{})
 	finished := make(chan struct{})
 	var wg sync.WaitGroup
-	wg.Add(2)
-	go func() { // B: writers
-		defer wg.Done()
-		for {
-			select {
-			case <-stop:
-				return
-			default:
+	// phase 0: thread 1 waits at its first statement; two clients inject expressions that call
+	// functions of the debugged program at the same time (each evaluation must be a thread of its own)
+	for i := 0; i < 4; i++ { // past the four function declarations
+		note(class("cont 1 stepover"))
+		for j := 0; j < 200000; j++ {
+			d, _ := c.dbg.Describe(1).(map[string]interface{})
+			if d == nil || d["threadRunning"] == false {
+				break
 			}
-			note(class("break prog:900"))
-			note(class("rmbreak prog:900"))
-			note(class("disablebreak prog:901"))
-			note(class("breakonstart false"))
-			note(class("extract 1 a dst"))
-			note(class("inject 1 b 1+1"))
+			time.Sleep(5 * time.Microsecond)
 		}
-	}()
-	go func() { // C: readers
-		defer wg.Done()
-		for {
-			select {
-			case <-stop:
-				return
-			default:
+	}
+	var w0 sync.WaitGroup
+	for k := 0; k < 2; k++ {
+		fn, v := []string{"slow2(15)", "slow(15)"}[k], []string{"a", "b"}[k]
+		w0.Add(1)
+		go func() {
+			defer w0.Done()
+			for i := 0; i < 60; i++ {
+				note(class("inject 1 " + v + " " + fn))
 			}
-			note(class("status"))
-			note(class("describe 1"))
-			note(class("lockstate"))
-			note(class("describe 3"))
-			note(class("nosuchcmd 1"))
-		}
-	}()
+		}()
+	}
+	w0.Wait()
+	// every command kind comes from at least two goroutines at once (a command also races with itself)
+	wg.Add(8)
+	for k := 0; k < 2; k++ {
+		fn, v := []string{"slow2(15)", "slow(15)"}[k], []string{"a", "b"}[k]
+		go func() { // X, Y: injects whose expressions call functions of the debugged program
+			defer wg.Done()
+			for {
+				select {
+				case <-stop:
+					return
+				default:
+				}
+				note(class("inject 1 " + v + " " + fn))
+				note(class("extract 1 " + v + " dst" + v))
+			}
+		}()
+		go func() { // second and third source of `cont` for the thread goroutine A steps
+			defer wg.Done()
+			for {
+				select {
+				case <-stop:
+					return
+				default:
+				}
+				note(class("cont 1 stepover"))
+				time.Sleep(50 * time.Microsecond)
+			}
+		}()
+	}
+	for k := 0; k < 2; k++ {
+		go func() { // B: writers
+			defer wg.Done()
+			for {
+				select {
+				case <-stop:
+					return
+				default:
+				}
+				note(class("break prog:900"))
+				note(class("rmbreak prog:900"))
+				note(class("disablebreak prog:901"))
+				note(class("breakonstart false"))
+				note(class("extract 1 a dst"))
+				note(class("inject 1 b 1+1"))
+			}
+		}()
+		go func() { // C: readers
+			defer wg.Done()
+			for {
+				select {
+				case <-stop:
+					return
+				default:
+				}
+				note(class("status"))
+				note(class("describe 1"))
+				note(class("lockstate"))
+				note(class("describe 3"))
+				note(class("nosuchcmd 1"))
+			}
+		}()
+	}
 	go func() { // A
 		for i := 0; i < 300; i++ {
 			how := []string{"stepin", "stepover", "STEPOVER", "StepIn"}[i%4]
@@ -946,6 +1074,12 @@ func c16Run(payload string) string {
 	if f[0] == "telnet" {
 		return "R:" + c16Telnet()
 	}
+	if f[0] == "cyclic" {
+		return "R:" + c16Cyclic(false)
+	}
+	if f[0] == "cyclic!" {
+		return c16Cyclic(true)
+	}
 	if r, ok := c16Recorded.LoadAndDelete(payload); ok {
 		return "R:" + r.(string)
 	}
@@ -972,7 +1106,7 @@ func c16Run(payload string) string {
 // ---- generator
 
 var c16Args = []string{
-	"1", "2", "77", "-1", "0", "18446744073709551616", "99999999999999999999", "+1", "01", "9223372036854775808",
+	"1", "2", "77", "999", "-1", "0", "18446744073709551616", "99999999999999999999", "+1", "01", "9223372036854775808",
 	"prog", "nosrc", "prog:1", "nest:6", "prog:", ":1", "prog:x", "a:b:c", "prog:-1", "prog:0",
 	"a", "zz", "m.k", "l.5", "zz.q", "1+1", "1+", "\xff\xfe", "%$", "nosuch()",
 	"resume", "StepIn", "stepover", "STEPOUT", "stepİn", "true", "false", " ",
@@ -1069,6 +1203,16 @@ func c16Gen(g *Gen) {
 	}
 	sort.Strings(cmds)
 	cmds = append(cmds, "nosuchcmd")
+	// words HandleInput itself compares the first word with (none in the code as it is): a command
+	// word the table does not know is part of the vocabulary all the same
+	if lits, err := c16DispatchLiterals(); err == nil {
+		for _, l := range lits {
+			if _, ok := interpreter.DebugCommandsMap[l]; !ok && l != "" && !strings.ContainsAny(l, " \t") {
+				cmds = append(cmds, l)
+				g.Count("extra-dispatch-word")
+			}
+		}
+	}
 
 	// directed: the inputs of the repaired defects first
 	emit("none", true, "lockstate")
@@ -1118,8 +1262,24 @@ func c16Gen(g *Gen) {
 		emit(scn, true, "inject 1 p for x.spin() { }", "status", "break prog:1", "rmbreak prog", "describe 1", "inject 1 p 1+1", "lockstate", "cont 1 stepover", "status")
 	}
 	emit("top", true, "inject 1 a for x.spin() { }", "status", "disablebreak prog:3", "extract 1 a dst", "describe 1")
+	// the evaluation of an injected expression is not debugged: break points inside the called
+	// function / break-on-start do not stop it, it shares no thread id with anything
 	emit("nest2", true, "inject 1 p f1(1)", "status", "break prog:1", "describe 999", "cont 999 resume", "status")
 	emit("nest1", true, "breakonstart", "inject 1 p f3(1)", "status", "describe 999", "rmbreak nest", "cont 999 stepover", "status")
+	emit("nest3", true, "break nest:3", "inject 1 p f3(1)", "inject 1 q f1(2)", "status")
+	// a real thread 999 survives an inject on another thread
+	emit("two999", true, "inject 1 p 1+1", "status", "describe 999", "cont 999 resume", "status")
+	emit("two999", true, "inject 1 p f3(1)", "inject 999 a f1(1)", "extract 999 a dst", "cont 999 stepover", "describe 999")
+	// StopThreads (the tool's @reload) while an inject is still evaluating; its late reply is read at the end
+	emit("nest2", true, "inject 1 p for x.spin() { }", "!stopthreads", "status", "break prog:1")
+	emit("top", true, "inject 1 a for x.spin() { }", "cont 1 resume", "!release", "status")
+	// lockstate between SetLockingState and SetThreadPool
+	emit("halfrefs", true, "lockstate")
+	emit("halfrefs", true, "lockstate", "status", "lockstate 1")
+	// stepping into / over a call whose argument is a call
+	emit("nestarg", true, "cont 1 stepin", "cont 1 stepin", "describe 1", "cont 1 stepin", "cont 1 stepin", "cont 1 stepover", "cont 1 stepover", "status")
+	emit("nestarg", true, "cont 1 stepover", "cont 1 stepin", "cont 1 stepout", "cont 1 stepin", "cont 1 stepin", "cont 1 stepin", "describe 1")
+	emit("nestarg", true, "cont 1 stepin", "cont 1 stepover", "cont 1 stepover", "cont 1 stepin", "cont 1 stepout", "cont 1 stepout", "status")
 	// the same through the CLI tool's handler (cli/tool/debug.go: Handle, CanHandle, the @dbg table)
 	for _, scn := range []string{"cli:none", "cli:top", "cli:nest2", "cli:errsusp", "cli:errmap", "cli:two", "cli:finished"} {
 		emit(scn, true, "!dbgtable", "status", "lockstate", "describe 1", "break prog:1", "cont 1 stepout", "status")
@@ -1150,6 +1310,16 @@ func c16Gen(g *Gen) {
 			g.Emit(fmt.Sprintf("telnet 1 %d", i))
 		}
 	}
+	// known finding describe-cyclic-value (only emitted when the finding is listed: C16_CYCLIC)
+	if os.Getenv("C16_CYCLIC") != "" {
+		g.Count("cyclic")
+		k++
+		if k%sn != si || k < start {
+			g.Emit("not-in-this-shard")
+		} else {
+			g.Emit("cyclic 1 0")
+		}
+	}
 	// commands from two goroutines at once
 	amplify := os.Getenv("C16_AMPLIFY") != "" // a fact about the lock discipline is not established
 	nconc := 3
@@ -1175,7 +1345,7 @@ func c16Gen(g *Gen) {
 				continue
 			}
 			errData := scn == "errmap" || scn == "errnest" || scn == "errinf"
-			stepBp := strings.HasPrefix(scn, "stepbp")
+			stepBp := strings.HasPrefix(scn, "stepbp") || scn == "two999" || scn == "halfrefs" || scn == "nestarg"
 			args := c16ArgsSmall
 			if g.Thorough() && gsGiven && !errData {
 				args = c16Args
@@ -1328,27 +1498,82 @@ func c16Tool(args []string) int {
 			ty := strings.TrimPrefix(text(d.Recv.List[0].Type), "*")
 			// the argument-count test: a leading `if <condition over len(args)> { …; return … }`.
 			// The condition is EVALUATED for 0..5 arguments (not compared as text); "?" = not understood
+			// no statement of the body looks at the number of arguments before it uses them: nothing rejected.
+			// A leading statement that does but is not understood: "??????" (not established).
 			table := "FFFFFF"
-			for _, st := range d.Body.List {
-				if is, ok := st.(*ast.IfStmt); ok && strings.Contains(text(is.Cond), "len(args)") {
-					if len(is.Body.List) > 0 {
-						if _, ok := is.Body.List[len(is.Body.List)-1].(*ast.ReturnStmt); ok {
-							table = ""
-							for n := 0; n <= 5; n++ {
-								v, ok := c16EvalBool(is.Cond, d.Type.Params, n)
-								switch {
-								case !ok:
-									table += "?"
-								case v:
-									table += "T"
-								default:
-									table += "F"
-								}
+			argName := ""
+			if d.Type.Params != nil {
+				for _, f := range d.Type.Params.List {
+					if at, ok := f.Type.(*ast.ArrayType); ok && at.Len == nil {
+						for _, nm := range f.Names {
+							argName = nm.Name
+						}
+					}
+				}
+			}
+			mentions := func(n ast.Node) bool {
+				found := false
+				if n == nil {
+					return false
+				}
+				ast.Inspect(n, func(x ast.Node) bool {
+					if c, ok := x.(*ast.CallExpr); ok {
+						if id, ok := c.Fun.(*ast.Ident); ok && id.Name == "len" && len(c.Args) == 1 {
+							if a, ok := c.Args[0].(*ast.Ident); ok && a.Name == argName {
+								found = true
 							}
 						}
 					}
+					return true
+				})
+				return found
+			}
+			for _, st := range d.Body.List {
+				is, isIf := st.(*ast.IfStmt)
+				if sw, ok := st.(*ast.SwitchStmt); ok && (mentions(sw.Init) || mentions(sw.Tag) || mentions(sw.Body)) {
+					table = "??????"
 					break
 				}
+				if !isIf || !(mentions(is.Init) || mentions(is.Cond)) {
+					if mentions(st) {
+						table = "??????" // the count is looked at somewhere else first
+						break
+					}
+					continue
+				}
+				leaves := false
+				if len(is.Body.List) > 0 {
+					_, leaves = is.Body.List[len(is.Body.List)-1].(*ast.ReturnStmt)
+				}
+				if !leaves {
+					break // an optional argument (breakonstart): nothing is rejected
+				}
+				env := map[string]ast.Expr{}
+				if as, ok := is.Init.(*ast.AssignStmt); ok && len(as.Lhs) == len(as.Rhs) {
+					for k := range as.Lhs {
+						if id, ok := as.Lhs[k].(*ast.Ident); ok {
+							env[id.Name] = as.Rhs[k]
+						}
+					}
+				} else if is.Init != nil {
+					table = "??????"
+					break
+				}
+				c16Env = env
+				table = ""
+				for n := 0; n <= 5; n++ {
+					v, ok := c16EvalBool(is.Cond, d.Type.Params, n)
+					switch {
+					case !ok:
+						table += "?"
+					case v:
+						table += "T"
+					default:
+						table += "F"
+					}
+				}
+				c16Env = nil
+				break
 			}
 			checks[ty] = table
 		}
@@ -1423,8 +1648,15 @@ func c16EvalBool(e ast.Expr, params *ast.FieldList, n int) (bool, bool) {
 	return false, false
 }
 
+// variables bound by the Init statement of the argument-count test (`if n := len(args); n != 2`)
+var c16Env map[string]ast.Expr
+
 func c16EvalInt(e ast.Expr, params *ast.FieldList, n int) (int, bool) {
 	switch e := e.(type) {
+	case *ast.Ident:
+		if b, ok := c16Env[e.Name]; ok {
+			return c16EvalInt(b, params, n)
+		}
 	case *ast.ParenExpr:
 		return c16EvalInt(e.X, params, n)
 	case *ast.BasicLit:
